@@ -644,6 +644,11 @@ def c05_task(desc):
         before = r.mr("analyze", "--target-groups")
         bdoc = before.json()
         r.clear_traces()
+        if desc["explicit"] is not None and not desc["deps"]:
+            # "-t ... one at a time": every executable lingers a little so that overlap would be visible
+            for (t, c), m in modes.items():
+                if m == "x" and not desc.get("defs"):
+                    r.set_script(t, c, ["sleep 30", "exit 0"])
         res = r.mr("run", *desc["args"], env=r.trace_env())
         doc = res.json()
         traces = r.traces()
@@ -652,6 +657,12 @@ def c05_task(desc):
             t, c = r.target_pair(rec)
             started[(c, t)] = started.get((c, t), 0) + 1
         all_targets = sorted(tm)
+        if desc["explicit"] is not None and not desc["deps"]:
+            iv = sorted((rec["start"], rec.get("end", rec["start"]), r.target_pair(rec)) for rec in traces)
+            for a, b in zip(iv, iv[1:]):
+                if b[0] < a[1]:
+                    viol.append(("explicit-targets-overlap", "with -t (no --deps) %s:%s was started while %s:%s was still running" % (b[2][1], b[2][0], a[2][1], a[2][0])))
+                    break
         if desc["explicit"] is None:
             if bdoc is None:
                 raise common.EngineError("analyze failed: %r" % before)
